@@ -20,11 +20,24 @@ theorem wrapS32_eq (x : Int) : Go.wrapS 32 x = Time.wrap32 x := by
   simp only [show (2:Int)^32 = 4294967296 from by decide, show (2:Int)^(32-1) = 2147483648 from by decide]
 
 /-- `Duration.PicoEncode` as translated: the split and the two-field message of the model -/
-theorem durationEncode_eq (field : Int) (d : Int) (c : Bytes) :
+theorem durationEncode_eq (field : Int) (d : Int) (c : Bytes) (hd : Time.I64 d) :
     GoSrc.Pico.durationEncode field d c
       = .ok (d, c ++ GoTime.secNanosMessage field (Time.durSplit d).1 (Time.durSplit d).2, true) := by
-  unfold GoSrc.Pico.durationEncode Time.durSplit GoTime.nanoseconds
-  simp [wrapS64_eq, wrapS32_eq, Time.nano]
+  first
+  | (unfold GoSrc.Pico.durationEncode Time.durSplit GoTime.nanoseconds
+     simp [wrapS64_eq, wrapS32_eq, Time.nano])
+  | -- the source computes the split some other way: compare with the exact quotient and remainder
+    (rw [durSplit_eq d hd]
+     have f := tdiv_tmod_facts d
+     unfold Time.I64 at hd
+     unfold GoSrc.Pico.durationEncode
+     simp only [GoTime.nanoseconds, wrapS64_eq, wrapS32_eq, if_false, pure, bind, Res.bind, Res.ok.injEq,
+       Prod.mk.injEq, List.append_cancel_left_eq, and_true, true_and]
+     refine congr (congrArg _ ?_) ?_
+     all_goals
+       (simp only [Time.wrap64, Time.wrap32, Time.two64, Time.two32]
+        repeat' split
+        all_goals omega))
 
 /-- the arithmetic after the two fields have been read -/
 theorem durationDecode_arith (seconds nanos : Int) (hn : Time.I32 nanos) :
@@ -74,30 +87,53 @@ theorem durationDecode_eq (field : Int) (d : Int) (c : Dec.Dec) :
           pure (Time.durDecode r.2.1 r.2.2, r.1)) := by
   unfold GoSrc.Pico.durationDecode
   simp only [GoTie.D.pendingField_eq]
-  split
-  · rfl
-  · unfold GoTime.readSecNanos
-    cases h : Dec.message field Gen2.secNanosPass c (pat64 0, pat32 0) with
-    | ok r =>
-      obtain ⟨c', s⟩ := r
-      simp only [Res.bind_ok, pure]
-      have := durationDecode_arith (wrap64 ↑s.1) (wrap32 ↑s.2) (wrap32_I32 _)
-      simp only [] at this
-      rw [← this]
-      generalize (decide ((Go.wrapS 64 (wrap64 ↑s.1 * 1000000000)).tdiv 1000000000 ≠ wrap64 ↑s.1) ||
-              decide (wrap64 ↑s.1 < 0) && decide (wrap32 ↑s.2 < 0) &&
-                decide (Go.wrapS 64 (Go.wrapS 64 (wrap64 ↑s.1 * 1000000000) + Go.wrapS 64 (wrap32 ↑s.2 * 1)) > 0) ||
-            decide (wrap64 ↑s.1 > 0) && decide (wrap32 ↑s.2 > 0) &&
-              decide (Go.wrapS 64 (Go.wrapS 64 (wrap64 ↑s.1 * 1000000000) + Go.wrapS 64 (wrap32 ↑s.2 * 1)) < 0)) = ov
-      cases ov
-      · simp
-      · by_cases h1 : wrap64 ↑s.1 < 0
-        · simp [h1]
-        · by_cases h2 : wrap64 ↑s.1 > 0
-          · simp [h1, h2]
-          · simp [h1, h2]
-    | panic w => rfl
-    | outOfFuel => rfl
+  first
+  | (split
+     · rfl
+     · unfold GoTime.readSecNanos
+       cases h : Dec.message field Gen2.secNanosPass c (pat64 0, pat32 0) with
+       | ok r =>
+         obtain ⟨c', s⟩ := r
+         simp only [Res.bind_ok, pure]
+         have := durationDecode_arith (wrap64 ↑s.1) (wrap32 ↑s.2) (wrap32_I32 _)
+         simp only [] at this
+         rw [← this]
+         generalize (decide ((Go.wrapS 64 (wrap64 ↑s.1 * 1000000000)).tdiv 1000000000 ≠ wrap64 ↑s.1) ||
+                 decide (wrap64 ↑s.1 < 0) && decide (wrap32 ↑s.2 < 0) &&
+                   decide (Go.wrapS 64 (Go.wrapS 64 (wrap64 ↑s.1 * 1000000000) + Go.wrapS 64 (wrap32 ↑s.2 * 1)) > 0) ||
+               decide (wrap64 ↑s.1 > 0) && decide (wrap32 ↑s.2 > 0) &&
+                 decide (Go.wrapS 64 (Go.wrapS 64 (wrap64 ↑s.1 * 1000000000) + Go.wrapS 64 (wrap32 ↑s.2 * 1)) < 0)) = ov
+         cases ov
+         · simp
+         · by_cases h1 : wrap64 ↑s.1 < 0
+           · simp [h1]
+           · by_cases h2 : wrap64 ↑s.1 > 0
+             · simp [h1, h2]
+             · simp [h1, h2]
+       | panic w => rfl
+       | outOfFuel => rfl)
+  | -- the source computes the saturated sum some other way: compare with `durDecode_saturates`
+    (by_cases hp : c.cur.pendingField ≠ field
+     · simp [hp]
+     · simp only [hp, if_false]
+       unfold GoTime.readSecNanos
+       cases h : Dec.message field Gen2.secNanosPass c (pat64 0, pat32 0) with
+       | ok r =>
+         obtain ⟨c', s⟩ := r
+         have hs := wrap64_I64 (↑s.1)
+         have hn := wrap32_I32 (↑s.2)
+         simp only [Res.bind_ok, pure]
+         generalize wrap64 ↑s.1 = S at *
+         generalize wrap32 ↑s.2 = N at *
+         rw [durDecode_saturates S N hs hn]
+         try unfold_aux_Pico
+         simp only [wrapS64_eq, wrapS32_eq, Time.wrap64, Time.wrap32, Time.two64, Time.two32, Time.I64, Time.I32,
+           Time.minInt64, Time.maxInt64, show (10 : Int) ^ 9 = 1000000000 from by decide, bind, Res.bind, pure] at *
+         simp only [← apply_ite (Res.ok (α := Int)), Res.ok.injEq, Prod.mk.injEq, and_true]
+         repeat' split
+         all_goals (first | omega | (simp only [Res.ok.injEq, Prod.mk.injEq, and_true, reduceCtorEq] at *; omega))
+       | panic w => rfl
+       | outOfFuel => rfl)
 
 /-- `Timestamp.PicoEncode` as translated: nothing for the zero time, otherwise the two-field message
 of `Unix()` and `Nanosecond()` -/
